@@ -1,20 +1,27 @@
 #!/bin/sh
-# evaluate listed "ID/v" seeds against their own check in scratch copy
+# eval_seeds_scratch.sh C05/a C13/d ...   (env CHECK="C02 C03" to run other checks, TIER=quick|thorough)
+# Applies /verif/seeded/<ID>-<v>/patch.diff to a scratch worktree of /repo (never to /repo itself), runs the check(s)
+# from a scratch copy of /verif with PWMC_REPO pointing at the worktree, prints one line per (seed, check), and
+# removes both scratch copies at the end.
+set -u
 rm -rf /tmp/evalverif && mkdir -p /tmp/evalverif && rsync -a --exclude .git --exclude .cache --exclude replays /verif/ /tmp/evalverif/
-git -C /tmp/evalrepo checkout -q --detach $(git -C /repo rev-parse HEAD); git -C /tmp/evalrepo checkout -q -- .
+if [ ! -d /tmp/evalrepo ]; then git -C /repo worktree add -q --detach /tmp/evalrepo HEAD; fi
+git -C /tmp/evalrepo checkout -q --detach "$(git -C /repo rev-parse HEAD)"; git -C /tmp/evalrepo checkout -q -- .
 export PWMC_REPO=/tmp/evalrepo PWMC_JAX_CACHE=/verif/.cache/jax
 for item in "$@"; do
   id=${item%%/*}; v=${item##*/}; chk=${CHECK:-$id}
   sd=/verif/seeded/$id-$v
   git -C /tmp/evalrepo checkout -q -- .
-  git -C /tmp/evalrepo apply $sd/patch.diff || { echo "$item APPLY-FAILED"; continue; }
+  git -C /tmp/evalrepo apply "$sd/patch.diff" || { echo "$item APPLY-FAILED"; continue; }
   cd /tmp/evalverif
   for c in $chk; do
     s=$(date +%s)
-    /venv/bin/python -m pwmc $c --tier ${TIER:-quick} > /tmp/evalverif/seedlog_${id}_${v}_$c.log 2>&1
+    /venv/bin/python -m pwmc "$c" --tier "${TIER:-quick}" > "/tmp/evalverif/seedlog_${id}_${v}_$c.log" 2>&1
     rc=$?
     e=$(date +%s)
     echo "$item check=$c rc=$rc $((e-s))s viol=$(grep -c '^VIOLATION' /tmp/evalverif/seedlog_${id}_${v}_$c.log) | $(grep -A1 '^VIOLATION' /tmp/evalverif/seedlog_${id}_${v}_$c.log | grep clause | head -1 | cut -c1-150)"
   done
   git -C /tmp/evalrepo checkout -q -- .
 done
+cd /
+git -C /repo worktree remove --force /tmp/evalrepo; git -C /repo worktree prune; rm -rf /tmp/evalverif
